@@ -499,6 +499,9 @@ func (x *Exec) invoke(fr *frame, recv Value, m *types.Func, args []Value, asDefe
 	if _, isOpq := ifc.v.(Opaque); isOpq {
 		panic(unsupported{"method call on opaque value: " + m.Name()})
 	}
+	if rt, isRT := ifc.v.(ReflType); isRT {
+		return x.reflTypeMethod(rt, m.Name(), args)
+	}
 	fn := x.prog.LookupMethod(ifc.t, m.Pkg(), m.Name())
 	if fn == nil {
 		panic(fmt.Sprintf("no method %s on %s", m.Name(), ifc.t))
@@ -1113,6 +1116,9 @@ func (x *Exec) valEq(a, b Value) *Term {
 		return r
 	case BigVal:
 		return mkEq(av.t, b.(BigVal).t)
+	case ReflType:
+		bt, ok := b.(ReflType)
+		return mkBool(ok && types.Identical(av.t, bt.t))
 	case Opaque:
 		panic(unsupported{"comparison of opaque value: " + av.why})
 	}
